@@ -3,6 +3,7 @@ package main
 import (
 	"fmt"
 	"os"
+	"sort"
 
 	"golang.org/x/tools/go/ssa"
 )
@@ -10,6 +11,23 @@ import (
 // dumpFacts prints analysis facts for debugging: `mosverif dumpfacts <relpkg> [func-substring]`.
 func dumpFacts(p *Prog, args []string) {
 	if len(args) == 0 {
+		return
+	}
+	if args[0] == "writes" && len(args) > 1 {
+		// dev helper: list every write (store / element store / map update / delete) of the fields whose key contains args[1]
+		w := p.whoWrites()
+		var keys []string
+		for k := range w.byField {
+			if contains(k, args[1]) {
+				keys = append(keys, k)
+			}
+		}
+		sort.Strings(keys)
+		for _, k := range keys {
+			for _, fw := range w.byField[k] {
+				fmt.Printf("%s\t%s\t%s\t%s\n", k, fw.Kind, funcName(fw.Fn), p.pos(fw.Instr.Pos()))
+			}
+		}
 		return
 	}
 	for _, f := range p.funcsIn(args[0]) {
